@@ -226,6 +226,14 @@ def _kwargs_slice(body):
     raise ValueError("keyword arguments of the stiffness tester not found in _analysis")
 
 
+def _solver_dict_tail(body):
+    """generate_propagator_solver: the assembly of the returned dictionary (the last four statements)"""
+    out = [st for st in body if ast.unparse(st).startswith(("all_state_symbols =", "initial_values =", "solver_dict =", "return solver_dict"))]
+    if len(out) != 4:
+        raise ValueError("dictionary assembly of generate_propagator_solver not found")
+    return out
+
+
 GROUPS = {
     # ---------------------------------------------------------------------------------- C15
     "PySpikes": {
@@ -894,6 +902,29 @@ GROUPS = {
                 doc="every statement is a call and is pinned verbatim (incl. the complete argument list of the MixedIntegrator constructor: the tester's own system, "
                     "shapes, analytic solver dictionary, parameters, the spike times just generated, seed, step bound, accuracies, simulation time, aliasing mode); "
                     "the result is the trace of what happens, in order")),
+        ],
+    },
+    "PyDictAssembly": {
+        "imports": ["OdeVerif.Model.PyPrelude"],
+        "file": "odetoolbox/system_of_shapes.py",
+        "functions": [
+            (("SystemOfShapes", "generate_numeric_solver"), Spec(
+                name="generateNumericSolver", header="{β γ : Type}", params=[("x", "List String"), ("getIv", "String → β"), ("reconstitute", "γ")],
+                types={"update_expr": "γ", "all_state_symbols": "List String", "initial_values": "List (String × β)", "solver_dict": "γ × List String × List (String × β)"},
+                expr_map={"self.reconstitute_expr(state_variables=state_variables)": "reconstitute", "[str(sym) for sym in self.x_]": "x",
+                          "{sym: str(self.get_initial_value(sym)) for sym in all_state_symbols}": "(all_state_symbols.map (fun sym => (sym, getIv sym)))",
+                          "{'update_expressions': update_expr, 'state_variables': all_state_symbols, 'initial_values': initial_values}": "(update_expr, all_state_symbols, initial_values)"},
+                result_type="γ × List String × List (String × β)",
+                doc="the returned dictionary as the triple (update_expressions, state_variables, initial_values); `reconstitute_expr(...)` is the parameter "
+                    "`reconstitute` (its own translation: Generated/PyNumeric.lean), `str(self.get_initial_value(sym))` is `getIv sym` (Generated/PyInitialValues.lean)")),
+            (("SystemOfShapes", "generate_propagator_solver"), Spec(
+                name="propagatorSolverDict", header="{β γ δ : Type}", params=[("x", "List String"), ("getIv", "String → β"), ("P_expr", "δ"), ("update_expr", "γ")],
+                types={"all_state_symbols": "List String", "initial_values": "List (String × β)", "solver_dict": "δ × γ × List String × List (String × β)"},
+                expr_map={"[str(sym) for sym in self.x_]": "x", "{sym: str(self.get_initial_value(sym)) for sym in all_state_symbols}": "(all_state_symbols.map (fun sym => (sym, getIv sym)))",
+                          "{'propagators': P_expr, 'update_expressions': update_expr, 'state_variables': all_state_symbols, 'initial_values': initial_values}":
+                              "(P_expr, update_expr, all_state_symbols, initial_values)"},
+                body_filter=_solver_dict_tail, result_type="δ × γ × List String × List (String × β)",
+                doc="the assembly of the returned dictionary only (the loop before it: Generated/PyPropagator.lean)")),
         ],
     },
     # ---------------------------------------------------------------------------------- C14
